@@ -128,6 +128,11 @@ func (pa *peerAddrs) PopIfExpired(now time.Time) (*expiringAddr, bool) {
 
 func (pa *peerAddrs) Update(a *expiringAddr) {
 	if a.heapIndex == -1 {
+		// Not tracked for expiry yet. An address that is no longer
+		// connected has to start expiring.
+		if !a.IsConnected() {
+			heap.Push(pa, a)
+		}
 		return
 	}
 	if a.IsConnected() {
